@@ -5,6 +5,7 @@ Proofs/PyConvGpc.lean with one list of alternative clauses per python item inste
 import PoetryVerif.Proofs.PyConvGpc
 import PoetryVerif.Proofs.PyConvAlts
 import PoetryVerif.Proofs.PyConvSplitSound
+import PoetryVerif.Proofs.PyConvSplitSoundE
 
 set_option linter.unusedSimpArgs false
 set_option linter.unusedVariables false
@@ -18,27 +19,33 @@ variable {ev : Leaf → Bool} {G : Leaf → Prop}
 right shape; the item holds iff one of them admits the interpreter -/
 def LeafAlts (ev : Leaf → Bool) (X Y Z : Nat) (l : Leaf) : Prop :=
   ∃ s alts, l = .single s ∧ PairAlts s.op s.value alts ∧ alts ≠ [] ∧
-    (∀ it ∈ alts, ItemShape it ∧ ∃ b, ClauseMeans it X Y Z b) ∧
+    (∀ it ∈ alts, EntryShape it ∧ ∃ b, ClauseMeans it X Y Z b) ∧
     (ev l = true → ∃ it ∈ alts, ClauseMeans it X Y Z true) ∧
     (ev l = false → ∀ it ∈ alts, ClauseMeans it X Y Z false)
 
 theorem leafAlts_of_clause {X Y Z : Nat} {l : Leaf} (h : LeafClause ev X Y Z l) : LeafAlts ev X Y Z l := by
   obtain ⟨s, item, rfl, hop, hitem, hmean, hshape⟩ := h
   refine ⟨s, [item], rfl, Or.inl ⟨hop, item, hitem, rfl⟩, by simp, ?_, ?_, ?_⟩
-  · intro it hit; simp at hit; subst hit; exact ⟨hshape, _, hmean⟩
+  · intro it hit; simp at hit; subst hit; exact ⟨entryShape_item hshape, _, hmean⟩
   · intro he; exact ⟨item, by simp, by rw [← he]; exact hmean⟩
   · intro he it hit; simp at hit; subst hit; rw [← he]; exact hmean
 
 theorem pairAlts_unique {op v : String} {a b : List String} (ha : PairAlts op v a) (hb : PairAlts op v b) : a = b := by
-  rcases ha with ⟨hop, i1, h1, rfl⟩ | ⟨rfl, rfl⟩ <;> rcases hb with ⟨hop', i2, h2, rfl⟩ | ⟨hop', rfl⟩
+  rcases ha with ⟨hop, i1, h1, rfl⟩ | ⟨rfl, rfl⟩ | ⟨rfl, rfl⟩ <;>
+    rcases hb with ⟨hop', i2, h2, rfl⟩ | ⟨hop', rfl⟩ | ⟨hop', rfl⟩
   · rw [h1] at h2; injection h2 with h2; rw [h2]
   · subst hop'; exact absurd (relOp_not_list hop).1 (by decide)
+  · subst hop'; exact absurd (relOp_not_list hop).2 (by decide)
   · exact absurd (relOp_not_list hop').1 (by decide)
+  · rfl
+  · exact absurd hop' (by decide)
+  · exact absurd (relOp_not_list hop').2 (by decide)
+  · exact absurd hop' (by decide)
   · rfl
 
 /-- what is known about the choices printed for one group of pairs -/
 def AltFacts (ev : Leaf → Bool) (X Y Z : Nat) (g : List (String × String)) (chs : List (List String)) : Prop :=
-  chs ≠ [] ∧ (∀ ch ∈ chs, ch.length = g.length ∧ ∀ it ∈ ch, ItemShape it ∧ ∃ b, ClauseMeans it X Y Z b) ∧
+  chs ≠ [] ∧ (∀ ch ∈ chs, ch.length = g.length ∧ ∀ it ∈ ch, EntryShape it ∧ ∃ b, ClauseMeans it X Y Z b) ∧
   ∀ ls : List Leaf, ls.map leafPair = g → (∀ l ∈ ls, LeafAlts ev X Y Z l) →
     ((∀ l ∈ ls, ev l = true) → ∃ ch ∈ chs, ∀ it ∈ ch, ClauseMeans it X Y Z true) ∧
     ((∃ l ∈ ls, ev l = false) → ∀ ch ∈ chs, ∃ it ∈ ch, ClauseMeans it X Y Z false)
@@ -164,7 +171,7 @@ theorem gpc_text_facts (S : LeafSpec ev G) (X Y Z : Nat) (d : M) (hdg : M.Good G
     (txt : String) (htxt : normalizePyMarkers (dedupGroups groups) = .ok txt) :
     ∃ chss : List (List (List String)), txt = joinWith " || " (chss.flatten.map (joinWith " ")) ∧
       chss.flatten ≠ [] ∧ (∀ ch ∈ chss.flatten, ch ≠ []) ∧
-      (∀ ch ∈ chss.flatten, ∀ it ∈ ch, ItemShape it ∧ ∃ b, ClauseMeans it X Y Z b) ∧
+      (∀ ch ∈ chss.flatten, ∀ it ∈ ch, EntryShape it ∧ ∃ b, ClauseMeans it X Y Z b) ∧
       (∀ gr ∈ groups, ∃ chs ∈ chss, AltFacts ev X Y Z gr chs) ∧
       (∀ chs ∈ chss, ∃ gr ∈ groups, AltFacts ev X Y Z gr chs) := by
   have hmm := mapM_ok_mem (conjPairs "python_version") (membersIfUnion d) groups hgroups
@@ -217,7 +224,7 @@ theorem gpc_text_facts (S : LeafSpec ev G) (X Y Z : Nat) (d : M) (hdg : M.Good G
 theorem gpc_upper_alts (S : LeafSpec ev G) (X Y Z : Nat) (m : M) (g : VC) (hg : M.Good G m)
     (hL : ∀ l, G l → convKey l.name = pyKey → LeafAlts ev X Y Z l)
     (h : gpc m = .ok g) (hs : M.sem ev m = true) : g.allowsPlain (pyV X Y Z) = true := by
-  have hSp := splitSound_holds X Y Z
+  have hSp := splitSoundE_holds X Y Z
   simp only [gpc, bind, Except.bind] at h
   split at h
   · cases h
@@ -284,7 +291,7 @@ theorem gpc_exact_alts (S : LeafSpec ev G) (X Y Z : Nat) (m : M) (g : VC) (hg : 
     (hL : ∀ l, G l → convKey l.name = pyKey → LeafAlts ev X Y Z l)
     (hpy : ∀ d, dnf defaultFuel [] m = .ok d → ∀ l ∈ M.leaves d, convKey l.name = pyKey)
     (h : gpc m = .ok g) : M.sem ev m = g.allowsPlain (pyV X Y Z) := by
-  have hSp := splitSound_holds X Y Z
+  have hSp := splitSoundE_holds X Y Z
   cases hs : M.sem ev m with
   | true => exact (gpc_upper_alts S X Y Z m g hg hL h hs).symm
   | false =>
